@@ -16,7 +16,8 @@ MANIFEST = {
             "evaluated on every real run (direct oracle).",
     "note": "Trusted: Coq kernel + vm_compute, no axioms; harness/fencerun (the 400-line MySQL stand-in: READ-COMMITTED-like "
             "visibility, key lock held to transaction end, a failed COMMIT applies nothing) and this driver's case printer. "
-            "Covers the WithFence API; the seata-fence-mysql proxy driver (FenceConn/FenceTx, two separate transactions) is not covered.",
+            "The seata-fence-mysql proxy-driver mode (FenceConn/FenceTx) is modelled too; the property fails there by design "
+            "(two known findings, C06_drivermode_refuted / _partial).",
     "technique": "Coq proof (induction over histories + reflection over the finite thread machine) + differential correspondence (vm_compute) + direct oracle on the real code",
 }
 PROP_FILE = "Props/P_C06.v"
@@ -48,8 +49,8 @@ def obs_term(o):
 
 
 def case_term(c):
-    hist = coq_list(["(%d, %s, %s)" % (d["key"], ph(d["phase"]), "None" if d["fault"] < 0 else "Some %d%%nat" % d["fault"])
-                     for d in (c["hist"] or [])])
+    hist = coq_list(["(%d, %s, %s, %s)" % (d["key"], ph(d["phase"]), "None" if d["fault"] < 0 else "Some %d%%nat" % d["fault"],
+                                            "true" if d.get("drv") else "false") for d in (c["hist"] or [])])
     obs = coq_list([obs_term(o) for o in (c["obs"] or [])])
     if c.get("race"):
         r = c["race"]
@@ -61,7 +62,7 @@ def case_term(c):
 
 
 def slim(c):
-    return {k: c.get(k) for k in ("kind", "hist", "race", "obs", "robs", "oracle")}
+    return {k: c.get(k) for k in ("kind", "hist", "race", "obs", "robs", "oracle", "pred") if c.get(k) is not None}
 
 
 def size(c):
@@ -70,8 +71,8 @@ def size(c):
 
 def params(chk):
     if chk.tier == "quick":
-        return dict(seqlen=6, faultlen=3, nsample=300, schedbits=6)
-    return dict(seqlen=9, faultlen=5, nsample=20000, schedbits=8)
+        return dict(seqlen=6, faultlen=3, nsample=300, schedbits=6, drvlen=4)
+    return dict(seqlen=9, faultlen=5, nsample=20000, schedbits=8, drvlen=6)
 
 
 def run(chk, replay_case=None):
@@ -85,7 +86,26 @@ def run(chk, replay_case=None):
         data, secs = vlib.run_harness("fence", chk.tmp("fence.json"), seed=chk.seed, replay=rp)
     else:
         data, secs = vlib.run_harness("fence", chk.tmp("fence.json"), timeout=3000, seed=chk.seed, **params(chk))
-    cases = data["cases"]
+    allcases = data["cases"]
+    # ---- finding stream: cases satisfying a listed input predicate are not compared with the model and
+    # their oracle failures are expected; a predicate that is not listed suppresses nothing
+    findings = vlib.known_findings("C06")
+    listed = {f["pred"] for f in findings}
+    cases = [c for c in allcases if c.get("pred") not in listed or not c.get("pred")]
+    stream = [c for c in allcases if c.get("pred") and c.get("pred") in listed]
+    for f in findings:
+        rc = json.load(open(os.path.join(vlib.VERIF, f["replay"])))["case"]
+        rp = chk.tmp("finding_%s.json" % f["id"])
+        json.dump(rc, open(rp, "w"))
+        rd, _ = vlib.run_harness("fence", chk.tmp("finding_out_%s.json" % f["id"]), seed=chk.seed, replay=rp)
+        got = rd["cases"][0] if rd["cases"] else {}
+        variants = [c for c in stream if c["pred"] == f["pred"] and c["oracle"]]
+        if got.get("oracle") and got.get("pred") == f["pred"]:
+            chk.known("id=%s %s (replay %s fails: %s; %d generated variants fail)" % (
+                f["id"], f["what"], f["replay"], got["oracle"][:120], len(variants)))
+        else:
+            print("STALE-FINDING: property=C06 id=%s its replay no longer fails" % f["id"])
+            chk.notes.append("stale finding " + f["id"])
     infra = [c for c in cases if c.get("infra")]
     mism = vlib.eval_mismatches("C06", HEADER, [case_term(c) for c in cases], case_type="fcase", shard=400)
     oracle_fail = sorted([i for i, c in enumerate(cases) if c["oracle"]], key=lambda i: size(cases[i]))
@@ -129,7 +149,8 @@ def run(chk, replay_case=None):
             errs[k] = errs.get(k, 0) + 1
     chk.coverage.update({
         "trusted_base": TRUSTED,
-        "evaluations": len(cases),
+        "evaluations": len(allcases),
+        "finding_stream_cases": len(stream),
         "deliveries_executed_on_real_code": n_deliv,
         "distinct_nontrivial": vlib.distinct([(c["hist"], c.get("race")) for c in cases if nontrivial(c)]),
         "rule": "histories over {prepare, commit, rollback} of one branch, all of length <= %(seqlen)d, fault-free; all histories of "
